@@ -23,8 +23,11 @@ package ledger
 //   before a later overpayment arrives are order-sensitive: either verdict is allowed.
 //
 // Part B — proposer payout. For bonus in {0, protocol bonus} (private consensus version
-// without a bonus plan for 0), fees collected in {0, 3001}, fee-sink balance after fee
-// collection in {min-1, min, min+1, min+P-1, min+P, large} (P = percent*fees + bonus),
+// without a bonus plan for 0), fees collected in {0, 1001, 3001} (odd totals, so that the
+// percentage has to round), fee sink plain or opted in to an asset in committed blocks
+// (its minimum balance is then two units), fee-sink balance after fee collection in
+// {min-1, min, min+1, min+P-1, min+P, large} (min = the sink's own minimum balance,
+// P = percent*fees + bonus),
 // proposer in {funded account, never-funded account, "ineligible" (agreement zeroes the
 // payout)}, claimed ProposerPayout in {0, allowed-1, allowed, allowed+1, 2^64-1}: the
 // block is built by the generator (GenerateBlock), the header field is overwritten and
@@ -314,6 +317,7 @@ type c24payoutCase struct {
 	Proposer string
 	Claim    uint64
 	Allowed  uint64
+	SinkMin  uint64
 }
 
 type c24payoutEnv struct {
@@ -324,6 +328,7 @@ type c24payoutEnv struct {
 	fees     uint64
 	bonus    uint64
 	sinkPost uint64
+	sinkMin  uint64 // the fee sink's own minimum balance (base + one unit per asset it holds)
 }
 
 func (e *c24payoutEnv) run(r *ve.Run, proposerKind int, claimSel int) {
@@ -348,7 +353,7 @@ func (e *c24payoutEnv) run(r *ve.Run, proposerKind int, claimSel int) {
 	gen := ub.UnfinishedBlock()
 
 	// harness formula
-	minBal := e.proto.MinBalance // the fee sink holds no assets, apps or boxes
+	minBal := e.sinkMin // the sink's OWN minimum balance: base, plus one unit per asset holding
 	pct := new(big.Int).Mul(new(big.Int).SetUint64(e.proto.Payouts.Percent), new(big.Int).SetUint64(e.fees))
 	pct.Div(pct, big.NewInt(100))
 	share := new(big.Int).Add(pct, new(big.Int).SetUint64(e.bonus))
@@ -362,13 +367,13 @@ func (e *c24payoutEnv) run(r *ve.Run, proposerKind int, claimSel int) {
 	}
 	allowed := allowedB.Uint64()
 
-	cs := c24payoutCase{Bonus: e.bonus, Fees: e.fees, Sink: e.sinkPost, Allowed: allowed}
+	cs := c24payoutCase{Bonus: e.bonus, Fees: e.fees, Sink: e.sinkPost, Allowed: allowed, SinkMin: minBal}
 	if gen.BlockHeader.Bonus.Raw != e.bonus || gen.BlockHeader.FeesCollected.Raw != e.fees {
 		panic(fmt.Sprintf("harness: generated header has bonus %d fees %d, expected %d %d", gen.BlockHeader.Bonus.Raw, gen.BlockHeader.FeesCollected.Raw, e.bonus, e.fees))
 	}
 	if g := gen.BlockHeader.ProposerPayout.Raw; g > allowed {
 		r.Report("C24:generator-overclaims", fmt.Sprintf("generator proposes payout %d, allowed is %d (%+v)", g, allowed, cs), cs)
-		return
+		// keep going: the validator's verdict on the explicit claims is checked as well
 	}
 
 	var claim uint64
@@ -427,7 +432,7 @@ func (e *c24payoutEnv) run(r *ve.Run, proposerKind int, claimSel int) {
 	accepted := err == nil
 	want := claim <= allowed
 	either := proposerKind == 1 && claim > 0 && want // payout to a closed account: code refuses, statement silent
-	c24classes.add(r, fmt.Sprintf("B/bonus=%v/fees=%v/%s/claim%d/want=%v/got=%v", e.bonus > 0, e.fees > 0, cs.Proposer, claimSel, want, accepted))
+	c24classes.add(r, fmt.Sprintf("B/bonus=%v/fees=%v/sinkasset=%v/%s/claim%d/want=%v/got=%v", e.bonus > 0, e.fees > 0, e.sinkMin > e.proto.MinBalance, cs.Proposer, claimSel, want, accepted))
 	switch {
 	case either:
 	case want && !accepted:
@@ -548,33 +553,58 @@ func TestVerif_C24(t *testing.T) {
 			if bonusOn {
 				pcv, bonus = cv, proto.Bonus.BaseAmount
 			}
-			for _, fees := range []uint64{0, feeF} {
-				P := proto.Payouts.Percent*fees/100 + bonus
-				minBal := proto.MinBalance
-				grid := []uint64{minBal - 1, minBal, minBal + 1, minBal + P - 1, minBal + P, minBal + 10*P + 1_000_000}
-				seen := map[uint64]bool{}
-				for _, sinkPost := range grid {
-					if seen[sinkPost] || sinkPost < fees {
-						continue
+			for _, fees := range []uint64{0, 1001, feeF} {
+				for _, sinkAsset := range []bool{false, true} {
+					P := proto.Payouts.Percent*fees/100 + bonus
+					// the sink's own minimum balance: the base amount, plus the same again for an asset holding
+					minBal := proto.MinBalance
+					setupFees := uint64(0)
+					if sinkAsset {
+						minBal += proto.MinBalance
+						setupFees = proto.MinTxnFee // the asset creator's fee lands in the sink (the sink's own opt-in fee returns to it)
 					}
-					seen[sinkPost] = true
-					gb, addrs, _ := ledgertesting.NewTestGenesis(ledgertesting.TurnOffRewards, ledgertesting.InitialFeeSinkBalance(sinkPost-fees))
-					l, err := c24openLedger(dir, fmt.Sprintf("payout-%v-%d-%d", bonusOn, fees, sinkPost), pcv, gb, true)
-					if err != nil {
-						t.Fatalf("harness: %v", err)
+					grid := []uint64{minBal - 1, minBal, minBal + 1, minBal + P - 1, minBal + P, minBal + 10*P + 1_000_000}
+					if fees == 1001 {
+						grid = []uint64{minBal + P - 1, minBal + P, minBal + 10*P + 1_000_000} // second odd fee total: payout boundary only
 					}
-					ledgers = append(ledgers, l)
-					e := &c24payoutEnv{l: l, proto: config.Consensus[pcv], addrs: addrs, sink: gb.FeeSink, fees: fees, bonus: bonus, sinkPost: sinkPost}
-					dims := []int{3, 6}
-					total := ve.ProductSize(dims)
-					nCases += total
-					r.ParallelFor(total, func(i int) {
-						idx := make([]int, 2)
-						ve.Unrank(i, dims, idx)
-						e.run(r, idx[0], idx[1])
-					})
-					if len(seen) == 4 {
-						r.Sample(c24payoutCase{Bonus: bonus, Fees: fees, Sink: sinkPost, Proposer: "funded", Claim: 0})
+					seen := map[uint64]bool{}
+					for _, sinkPost := range grid {
+						if seen[sinkPost] || sinkPost < fees+setupFees {
+							continue
+						}
+						seen[sinkPost] = true
+						gb, addrs, _ := ledgertesting.NewTestGenesis(ledgertesting.TurnOffRewards, ledgertesting.InitialFeeSinkBalance(sinkPost-fees-setupFees))
+						l, err := c24openLedger(dir, fmt.Sprintf("payout-%v-%d-%v-%d", bonusOn, fees, sinkAsset, sinkPost), pcv, gb, true)
+						if err != nil {
+							t.Fatalf("harness: %v", err)
+						}
+						ledgers = append(ledgers, l)
+						if sinkAsset {
+							// committed history: an asset is created and the fee sink opts in to it
+							// (blocks proposed by the sink itself, so payouts do not move money)
+							ev := nextBlock(t, l)
+							txn(t, l, ev, &txntest.Txn{Type: "acfg", Sender: addrs[0], AssetParams: basics.AssetParams{Total: 10, UnitName: "c24"}})
+							asa := basics.AssetIndex(ev.TestingTxnCounter())
+							endBlock(t, l, ev)
+							ev = nextBlock(t, l)
+							txn(t, l, ev, &txntest.Txn{Type: "axfer", Sender: gb.FeeSink, AssetReceiver: gb.FeeSink, XferAsset: asa})
+							endBlock(t, l, ev)
+						}
+						if have := micros(t, l, gb.FeeSink); have != sinkPost-fees {
+							t.Fatalf("harness: fee sink holds %d after setup, wanted %d", have, sinkPost-fees)
+						}
+						e := &c24payoutEnv{l: l, proto: config.Consensus[pcv], addrs: addrs, sink: gb.FeeSink, fees: fees, bonus: bonus, sinkPost: sinkPost, sinkMin: minBal}
+						dims := []int{3, 6}
+						total := ve.ProductSize(dims)
+						nCases += total
+						r.ParallelFor(total, func(i int) {
+							idx := make([]int, 2)
+							ve.Unrank(i, dims, idx)
+							e.run(r, idx[0], idx[1])
+						})
+						if len(seen) == 4 {
+							r.Sample(c24payoutCase{Bonus: bonus, Fees: fees, Sink: sinkPost, Proposer: "funded", Claim: 0, SinkMin: minBal})
+						}
 					}
 				}
 			}
@@ -584,9 +614,9 @@ func TestVerif_C24(t *testing.T) {
 
 	r.Set("outcome_classes", c24classes.m)
 	r.Assume("transactions are unsigned and signature verification is mocked (verify.GetMockedCache): fees and payouts do not depend on signatures")
-	r.Assume("fee-sink minimum balance = proto.MinBalance (the sink holds no assets/apps/boxes in these ledgers)")
+	r.Assume("fee-sink minimum balance = proto.MinBalance, or 2*proto.MinBalance in the ledgers where the sink opted in to one asset (harness formula: one base unit per asset holding)")
 	r.Assume("inner payments are issued one per itxn_submit, in program order; their fee is paid by the funded app account")
-	n := r.Finish(ve.Coverage{Rule: "A: every group of 1..3 txns over 6 shapes (pay, big-note pay, app calls with 1-2 inner payments at inner fee 0/min/2min) x fees {0,min-1,min,2min,3min} (quick: n=3 over 3 shapes) through the real evaluator vs the harness' integer fee rule; B: bonus {0,b} x fees {0,3001} x 6 fee-sink balances around minBalance and minBalance+payout x 3 proposer kinds x claimed payout {0,allowed-1,allowed,allowed+1,2^64-1,generator's} re-evaluated with validation vs allowed=min(pct*fees+bonus, sink-minBalance)", Exhaustive: true})
+	n := r.Finish(ve.Coverage{Rule: "A: every group of 1..3 txns over 6 shapes (pay, big-note pay, app calls with 1-2 inner payments at inner fee 0/min/2min) x fees {0,min-1,min,2min,3min} (quick: n=3 over 3 shapes) through the real evaluator vs the harness' integer fee rule; B: bonus {0,b} x fees {0,1001,3001} x fee sink {plain, opted in to an asset} x up to 6 fee-sink balances around ITS minBalance and minBalance+payout x 3 proposer kinds x claimed payout {0,allowed-1,allowed,allowed+1,2^64-1,generator's} re-evaluated with validation vs allowed=min(pct*fees+bonus, sink-minBalance)", Exhaustive: true})
 	if n > 0 {
 		t.Fatal("violations")
 	}
